@@ -99,6 +99,7 @@ pub struct Adversary {
     pub conns: HashMap<usize, quinn::Connection>,
     pub accepted: Arc<std::sync::Mutex<Vec<quinn::Connection>>>,
     pub present_cert: bool,
+    pub held_uni: Vec<quinn::SendStream>,
 }
 
 fn signing_key(spec: &str) -> Arc<dyn rustls::sign::SigningKey> {
@@ -117,7 +118,27 @@ impl Adversary {
         let der = certs::build_cert(a);
         let k = *a.get("k").unwrap_or(&"1");
         let key = signing_key(a.get("signkey").copied().unwrap_or(k));
-        let ck = Arc::new(rustls::sign::CertifiedKey::new(vec![der.into()], key));
+        // chain=<k1,k2,..>: further (honest, self-signed, same names) certificates of those keys presented
+        // after the end-entity certificate; chainfirst=1 puts them in front of it instead
+        let mut chain: Vec<rustls::pki_types::CertificateDer<'static>> = vec![der.into()];
+        if let Some(extra) = a.get("chain") {
+            let mut more = Vec::new();
+            for ek in extra.split(',').filter(|x| !x.is_empty()) {
+                let mut b: HashMap<&str, &str> = HashMap::new();
+                b.insert("k", ek);
+                if let Some(n) = a.get("names") {
+                    b.insert("names", n);
+                }
+                more.push(rustls::pki_types::CertificateDer::from(certs::build_cert(&b)));
+            }
+            if a.get("chainfirst") == Some(&"1") {
+                more.extend(chain);
+                chain = more;
+            } else {
+                chain.extend(more);
+            }
+        }
+        let ck = Arc::new(rustls::sign::CertifiedKey::new(chain, key));
         let provider = Arc::new(rustls::crypto::ring::default_provider());
         let schemes = provider.signature_verification_algorithms.supported_schemes();
         let anything = Arc::new(AcceptAnything(schemes));
@@ -140,8 +161,7 @@ impl Adversary {
         let server = quinn::ServerConfig::with_crypto(Arc::new(
             quinn::crypto::rustls::QuicServerConfig::try_from(server_crypto).unwrap(),
         ));
-        let sock = std::net::UdpSocket::bind("127.0.0.1:0").unwrap();
-        let port = sock.local_addr().unwrap().port();
+        let port = fabric::auto_port();
         let mut endpoint = quinn::Endpoint::new_with_abstract_socket(
             quinn::EndpointConfig::default(),
             Some(server),
@@ -170,7 +190,7 @@ impl Adversary {
                 });
             }
         });
-        Adversary { held: Vec::new(), endpoint, port, conns: HashMap::new(), accepted, present_cert }
+        Adversary { held_uni: Vec::new(), held: Vec::new(), endpoint, port, conns: HashMap::new(), accepted, present_cert }
     }
 
     /// Hostile behaviour on an established connection to `target` (C06). `op`:
@@ -207,8 +227,12 @@ impl Adversary {
             "uni" => {
                 let Ok(mut tx) = conn.open_uni().await else { return "err open".into() };
                 let _ = tx.write_all(&bytes(f[1])).await;
-                let _ = tx.finish();
-                "uni".into()
+                match f.get(2).copied() {
+                    // left open, neither finished nor reset, for as long as the adversary lives
+                    Some("hold") => { self.held_uni.push(tx); "uni-held".into() }
+                    Some("reset") => { let _ = tx.reset(5u32.into()); "uni-reset".into() }
+                    _ => { let _ = tx.finish(); "uni".into() }
+                }
             }
             "datagram" => match conn.send_datagram(bytes(f[1]).into()) {
                 Ok(()) => "datagram".into(),
